@@ -370,6 +370,12 @@ func runHistory(r *kit.Run, rng *rand.Rand, n0, maxVals, idx int) {
 	t.w.Restore(t.snap)
 	h := &hist{r: r, rng: rng, w: t.w, vm: cs.NewVoteModel(), spare: append([]*pk.Key{}, t.spare...), outs: t.outs, maxVals: maxVals}
 	t.w.E.Height = 100 + uint32(rng.Intn(30000000))
+	// node-local configuration is a dimension: a quarter of the histories run with the event log off
+	config.DefConfig.Common.EnableEventLog = rng.Intn(4) != 0
+	defer func() { config.DefConfig.Common.EnableEventLog = true }()
+	if !config.DefConfig.Common.EnableEventLog {
+		r.Count("histories_with_event_log_disabled", 1)
+	}
 	paths := []string{"import/vote", "import/vote", "import/ripple", "signature", "signature", "fee"}
 	for i := 0; i < 3; i++ {
 		h.subs = append(h.subs, h.newSubject(paths[rng.Intn(5)]))
@@ -473,6 +479,7 @@ func TestC25(t *testing.T) {
 	}
 	r.Require("calls:import/vote:already-released", n/8)
 	r.Require("calls:signature:already-released", n/8)
+	r.Require("histories_with_event_log_disabled", n/8)
 	r.Require("voter:repeat-voter", n)
 	r.Require("voter:former-validator", n/4)
 	r.Require("released_by:repeat-voter", n/12) // release triggered by a repeat voter after the set shrank
